@@ -25,6 +25,11 @@ type LoopSpec struct {
 	Ordinal    int
 	Invariants []*Clause
 	Decreases  Expr
+	// loop frame ("modifies" inside a loop block): only these targets are havocked at the loop header; every back edge
+	// carries the obligation that nothing else (allocated before the iteration started) was changed by the body
+	HasModifies bool
+	Modifies    []Expr
+	ModSrc      []string
 }
 
 // CallSpec: per call-site annotations inside a function ("call F@1 invariant ...") – reserved.
@@ -353,6 +358,22 @@ func (db *SpecDB) parseSpecFile(file string, pkgPath string) {
 			case "noinline":
 				cur.NoInline = true
 			case "modifies":
+				if curLoop != nil {
+					curLoop.HasModifies = true
+					if rest == "nothing" || rest == "" {
+						continue
+					}
+					es, err := parseExprList(rest)
+					if err != nil {
+						errf(en.ln, "%v", err)
+						continue
+					}
+					curLoop.Modifies = append(curLoop.Modifies, es...)
+					for _, e := range es {
+						curLoop.ModSrc = append(curLoop.ModSrc, exprString(e))
+					}
+					continue
+				}
 				cur.HasModifies = true
 				if rest == "nothing" || rest == "" {
 					continue
